@@ -343,7 +343,9 @@ def install(I):
 
     @reg('iter')
     def _iter(ex, a, k):
-        from .interp_data import VIterView
+        from .interp_data import VIterView, VLazy
+        if len(a) == 2:
+            return VLazy('callsentinel', (a[0], a[1]))
         return VIterView('iter', a[0])
 
     @reg('next')
